@@ -38,9 +38,9 @@ theorem loadHeader_cands : ∀ (zs : List ((String × Bool × String) × String)
     (cs : List (String × Bool)) (nk : List (String × Nat)) (sc : Comps) (sys : Summary),
     createSystem sc = .ok sys →
     (nk.map (fun (p : String × Nat) => p.1) ++ zs.map (fun (z : (String × Bool × String) × String) => z.2)).Nodup →
-    loadHeader (zs.map (fun p => HLine.cand p.1.2.1 p.2 p.1.1) ++ [HLine.ballotsN n]) cs nk sc
-      = .ok (cs ++ zs.map (fun p => (p.1.1, p.1.2.1)), nk ++ enumFrom cs.length (zs.map (·.2)), sys, some n)
-  | [], n, cs, nk, sc, sys, hsys, _ => by simp [loadHeader, enumFrom, hsys]
+    loadHeader (zs.map (fun p => HLine.cand p.1.2.1 p.2 p.1.1) ++ [HLine.ballotsN n]) cs nk sc []
+      = .ok (cs ++ zs.map (fun p => (p.1.1, p.1.2.1)), nk ++ enumFrom cs.length (zs.map (·.2)), sys, some n, false)
+  | [], n, cs, nk, sc, sys, hsys, _ => by simp [loadHeader, applyOrder, enumFrom, hsys]
   | z :: t, n, cs, nk, sc, sys, hsys, hn => by
       have hfresh : z.2 ∉ nk.map (·.1) := by
         intro hm
@@ -274,16 +274,11 @@ theorem zip_map_fst_of_length {α β} : ∀ (a : List α) (b : List β), a.lengt
   | _ :: _, [], h => by simp at h
   | x :: xs, y :: ys, h => by simp [zip_map_fst_of_length xs ys (by simpa using h)]
 
-/-- the collected system settings, `syscomps` -/
-def collect : List (String × SVal) → Comps → Except Err Comps
-  | [], c => pure c
-  | p :: t, c => do let c' ← compsAdd c p.1 p.2; collect t c'
-
 theorem loadHeader_others : ∀ (ls : List (String × SVal)) (rest : List HLine) (cs : List (String × Bool))
-    (nk : List (String × Nat)) (sc sc' : Comps), collect ls sc = .ok sc' →
-    loadHeader (ls.map (fun p => HLine.other p.1 p.2) ++ rest) cs nk sc = loadHeader rest cs nk sc'
-  | [], rest, cs, nk, sc, sc', h => by simp [collect] at h; subst h; simp
-  | p :: t, rest, cs, nk, sc, sc', h => by
+    (nk : List (String × Nat)) (sc sc' : Comps) (ord : List String), collect ls sc = .ok sc' →
+    loadHeader (ls.map (fun p => HLine.other p.1 p.2) ++ rest) cs nk sc ord = loadHeader rest cs nk sc' ord
+  | [], rest, cs, nk, sc, sc', ord, h => by simp [collect] at h; subst h; simp
+  | p :: t, rest, cs, nk, sc, sc', ord, h => by
       simp only [collect] at h
       cases hc : compsAdd sc p.1 p.2 with
       | error e => rw [hc] at h; simp at h
@@ -291,12 +286,12 @@ theorem loadHeader_others : ∀ (ls : List (String × SVal)) (rest : List HLine)
         rw [hc] at h
         simp only [ok_bind] at h
         simp only [List.map_cons, List.cons_append, loadHeader, hc, ok_bind]
-        exact loadHeader_others t rest cs nk c1 sc' h
+        exact loadHeader_others t rest cs nk c1 sc' ord h
 
 /-- the header `_dump_system` writes for a supported system is read back by `_create_system` to the same settings -/
 theorem sys_rt (d : SysDoc) (h : wfSys d = true) :
     ∃ ls c, dumpSys d.toSys = .ok ls ∧
-      collect (ls ++ (match d.seatsArg with | some n => [("seats", SVal.num n)] | none => [])) {} = .ok c ∧
+      collect (ls ++ argLines d.seatsArg) {} = .ok c ∧
       createSystem c = .ok d.summary := by
   obtain ⟨title, sf, sa, rnd, q, m⟩ := d
   simp only [wfSys, Bool.and_eq_true, Bool.or_eq_true, decide_eq_true_eq, Bool.not_eq_true', Bool.and_eq_false_iff] at h
@@ -316,11 +311,14 @@ theorem wf_no_negative (d : Doc Weight) (h : wfStv d = true) :
   have := (h.1 b hb).1.2
   linarith
 
-theorem load_dump (sd : SysDoc) (hsd : wfSys sd = true) (d : Doc Weight) (h : wfStv d = true) (bl : List Blt.Line) :
-    ∃ hv, dumpStv sd.toSys sd.seatsArg true d = .ok hv ∧
-      loadStv hv.1 hv.2 bl = .ok (eraseDoc d, d.cands.map (fun c => (c.1, c.2.1)), sd.summary) := by
-  obtain ⟨ls, c, hls, hcol, hsys⟩ := sys_rt sd hsd
-  refine ⟨((ls ++ (match sd.seatsArg with | some n => [("seats", SVal.num n)] | none => [])).map (fun p => HLine.other p.1 p.2)
+theorem load_dump_gen (sys : Sys) (arg : Option Nat) (ls : List (String × SVal)) (c : Comps) (sm : Summary)
+    (hls : dumpSys sys = .ok ls)
+    (hcol : collect (ls ++ argLines arg) {} = .ok c)
+    (hsys : createSystem c = .ok sm)
+    (d : Doc Weight) (h : wfStv d = true) (cls : String → OItem) (bl : List Blt.Line) :
+    ∃ hv, dumpStv sys arg true d = .ok hv ∧
+      loadStv cls hv.1 hv.2 bl = .ok (eraseDoc d, d.cands.map (fun c => (c.1, c.2.1)), sm) := by
+  refine ⟨((ls ++ argLines arg).map (fun p => HLine.other p.1 p.2)
       ++ (d.cands.zip (candidateNicks (d.cands.map (·.2.2)))).map (fun p => HLine.cand p.1.2.1 p.2 p.1.1)
       ++ [HLine.ballotsN d.ballots.length],
     d.ballots.map (voteLine (candidateNicks (d.cands.map (·.2.2)))) ++ [VLine.endLine]), ?_, ?_⟩
@@ -341,7 +339,7 @@ theorem load_dump (sd : SysDoc) (hsd : wfSys sd = true) (d : Doc Weight) (h : wf
     simp only [voteOK, hlen]
     simpa using this
   simp only [loadStv]
-  rw [List.append_assoc, loadHeader_others _ _ _ _ _ c hcol, loadHeader_cands _ _ [] [] _ _ hsys (by simpa [hzs] using hnd)]
+  rw [List.append_assoc, loadHeader_others _ _ _ _ _ c [] hcol, loadHeader_cands _ _ [] [] _ _ hsys (by simpa [hzs] using hnd)]
   simp only [ok_bind, List.nil_append, List.length_nil, hzs]
   rw [loadVotes_lines _ hnd d.ballots.length d.ballots 0 [] hok (by simpa using hbn) (by simp)]
   simp only [ok_bind, pure_eq, List.nil_append]
@@ -354,14 +352,21 @@ theorem load_dump (sd : SysDoc) (hsd : wfSys sd = true) (d : Doc Weight) (h : wf
   simp [eraseDoc]
 
 
+theorem load_dump (sd : SysDoc) (hsd : wfSys sd = true) (d : Doc Weight) (h : wfStv d = true) (cls : String → OItem)
+    (bl : List Blt.Line) :
+    ∃ hv, dumpStv sd.toSys sd.seatsArg true d = .ok hv ∧
+      loadStv cls hv.1 hv.2 bl = .ok (eraseDoc d, d.cands.map (fun c => (c.1, c.2.1)), sd.summary) := by
+  obtain ⟨ls, c, hls, hcol, hsys⟩ := sys_rt sd hsd
+  exact load_dump_gen sd.toSys sd.seatsArg ls c sd.summary hls hcol hsys d h cls bl
+
 /-! ### which exceptions the reader can raise -/
-def StvErr (e : Err) : Prop := e = Err.parseError ∨ e = Err.notImplemented ∨ e = unmodelled
+def StvErr (e : Err) : Prop := e = Err.parseError ∨ e = Err.notImplemented
 
 macro "stv_err_cases" h:ident : tactic => `(tactic| (
   repeat' split at $h:ident
   all_goals first
     | (simp at $h:ident; done)
-    | (simp at $h:ident; subst $h:ident; simp [StvErr, unmodelled]; done)))
+    | (simp at $h:ident; subst $h:ident; simp [StvErr]; done)))
 
 theorem compsAdd_err (c k v) (e : Err) (h : compsAdd c k v = .error e) : StvErr e := by
   unfold compsAdd at h; stv_err_cases h
@@ -394,34 +399,65 @@ theorem createSystem_err (sc : Comps) (e : Err) (h : createSystem sc = .error e)
           | error e' => simp only [h2, h3, h4, h5, h6, ok_bind, err_bind] at h; cases h; exact sysSeats_err sc _ h6
           | ok z => simp only [h2, h3, h4, h5, h6, ok_bind, err_bind, pure_eq] at h; cases h
 
+theorem reorderNicks_err (nk : List (String × Nat)) : ∀ (l : List String) (acc : List (String × Nat)) (e : Err),
+    reorderNicks nk l acc = .error e → e = Err.parseError
+  | [], _, e, h => by simp [reorderNicks] at h
+  | s :: t, acc, e, h => by
+      simp only [reorderNicks] at h
+      split at h
+      · exact reorderNicks_err nk t _ e h
+      · simp at h; exact h.symm
+
+theorem applyOrder_err (nk : List (String × Nat)) (ord : List String) (e : Err) (h : applyOrder nk ord = .error e) :
+    e = Err.parseError := by
+  unfold applyOrder at h
+  split at h
+  · simp at h
+  · cases hr : reorderNicks nk ord [] with
+    | error e' => rw [hr] at h; simp at h; subst h; exact reorderNicks_err nk _ _ _ hr
+    | ok r => rw [hr] at h; simp at h
+
 theorem loadHeader_err : ∀ (hs : List HLine) (cs : List (String × Bool)) (nk : List (String × Nat))
-    (sc : Comps) (e : Err), loadHeader hs cs nk sc = .error e → StvErr e
-  | [], _, _, _, e, h => by simp [loadHeader] at h; exact Or.inl h.symm
-  | .blank :: rest, cs, nk, sc, e, h => by simp only [loadHeader] at h; exact loadHeader_err rest cs nk sc e h
-  | .invalid :: _, _, _, _, e, h => by simp [loadHeader] at h; exact Or.inl h.symm
-  | .cand w nick name :: rest, cs, nk, sc, e, h => by simp only [loadHeader] at h; exact loadHeader_err rest _ _ sc e h
-  | .candBad :: _, _, _, _, e, h => by simp [loadHeader] at h; exact Or.inl h.symm
-  | .ballotsN n :: _, _, _, sc, e, h => by
+    (sc : Comps) (ord : List String) (e : Err), loadHeader hs cs nk sc ord = .error e → StvErr e
+  | [], _, _, _, _, e, h => by simp [loadHeader] at h; exact Or.inl h.symm
+  | .blank :: rest, cs, nk, sc, ord, e, h => by simp only [loadHeader] at h; exact loadHeader_err rest cs nk sc ord e h
+  | .invalid :: _, _, _, _, _, e, h => by simp [loadHeader] at h; exact Or.inl h.symm
+  | .cand w nick name :: rest, cs, nk, sc, ord, e, h => by
+      simp only [loadHeader] at h; exact loadHeader_err rest _ _ sc ord e h
+  | .candBad :: _, _, _, _, _, e, h => by simp [loadHeader] at h; exact Or.inl h.symm
+  | .ballotsN n :: _, _, nk, sc, ord, e, h => by
       simp only [loadHeader] at h
-      cases hc : createSystem sc with
-      | error e' => rw [hc] at h; simp at h; subst h; exact createSystem_err sc e' hc
-      | ok sys => rw [hc] at h; simp at h
-  | .ballotsBlt :: _, _, _, sc, e, h => by
+      cases ho : applyOrder nk ord with
+      | error e' => rw [ho] at h; simp at h; subst h; exact Or.inl (applyOrder_err nk ord e' ho)
+      | ok r =>
+        rw [ho] at h; simp only [ok_bind] at h
+        cases hc : createSystem sc with
+        | error e' => rw [hc] at h; simp at h; subst h; exact createSystem_err sc e' hc
+        | ok sys => rw [hc] at h; simp at h
+  | .ballotsBlt :: _, _, nk, sc, ord, e, h => by
       simp only [loadHeader] at h
-      cases hc : createSystem sc with
-      | error e' => rw [hc] at h; simp at h; subst h; exact createSystem_err sc e' hc
-      | ok sys => rw [hc] at h; simp at h
-  | .ballotsBad :: _, _, _, sc, e, h => by
+      cases ho : applyOrder nk ord with
+      | error e' => rw [ho] at h; simp at h; subst h; exact Or.inl (applyOrder_err nk ord e' ho)
+      | ok r =>
+        rw [ho] at h; simp only [ok_bind] at h
+        cases hc : createSystem sc with
+        | error e' => rw [hc] at h; simp at h; subst h; exact createSystem_err sc e' hc
+        | ok sys => rw [hc] at h; simp at h
+  | .ballotsBad :: _, _, nk, sc, ord, e, h => by
       simp only [loadHeader] at h
-      cases hc : createSystem sc with
-      | error e' => rw [hc] at h; simp at h; subst h; exact createSystem_err sc e' hc
-      | ok sys => rw [hc] at h; simp at h; exact Or.inl h.symm
-  | .order _ :: _, _, _, _, e, h => by simp [loadHeader] at h; subst h; simp [StvErr]
-  | .other k v :: rest, cs, nk, sc, e, h => by
+      cases ho : applyOrder nk ord with
+      | error e' => rw [ho] at h; simp at h; subst h; exact Or.inl (applyOrder_err nk ord e' ho)
+      | ok r =>
+        rw [ho] at h; simp only [ok_bind] at h
+        cases hc : createSystem sc with
+        | error e' => rw [hc] at h; simp at h; subst h; exact createSystem_err sc e' hc
+        | ok sys => rw [hc] at h; simp at h; exact Or.inl h.symm
+  | .order l :: rest, cs, nk, sc, _, e, h => by simp only [loadHeader] at h; exact loadHeader_err rest cs nk sc l e h
+  | .other k v :: rest, cs, nk, sc, ord, e, h => by
       simp only [loadHeader] at h
       cases hc : compsAdd sc k v with
       | error e' => rw [hc] at h; simp at h; subst h; exact compsAdd_err sc k v e' hc
-      | ok c1 => rw [hc] at h; simp only [ok_bind] at h; exact loadHeader_err rest cs nk c1 e h
+      | ok c1 => rw [hc] at h; simp only [ok_bind] at h; exact loadHeader_err rest cs nk c1 ord e h
 
 theorem lookupNicks_err (nk : List (String × Nat)) : ∀ (l : List String) (e : Err),
     lookupNicks nk l = .error e → e = Err.parseError
@@ -458,21 +494,76 @@ theorem loadVotes_err (nk : List (String × Nat)) (n : Nat) : ∀ (vs : List VLi
         | error e' => rw [hl] at h; simp at h; subst h; exact Or.inl (lookupNicks_err nk _ _ hl)
         | ok b => rw [hl] at h; simp only [ok_bind] at h; exact loadVotes_err nk n rest _ _ e h
 
-theorem loadStv_err (hs : List HLine) (vs : List VLine) (bl : List Blt.Line) (e : Err)
-    (h : loadStv hs vs bl = .error e) : StvErr e := by
+theorem ordItems_err (cls : String → OItem) (cands : List Nat) : ∀ (l : List String) (i : Nat) (e : Err),
+    ordItems cls cands i l = .error e → e = Err.parseError
+  | [], _, e, h => by simp [ordItems] at h
+  | s :: t, i, e, h => by
+      simp only [ordItems] at h
+      split at h
+      · cases hr : ordItems cls cands (i + 1) t with
+        | error e' => rw [hr] at h; simp at h; subst h; exact ordItems_err cls cands t _ e' hr
+        | ok r => rw [hr] at h; simp at h
+      · exact ordItems_err cls cands t _ e h
+      · simp at h; exact h.symm
+
+theorem ordVote_err (cls : String → OItem) (cands : List Nat) (items : List String) (e : Err)
+    (h : ordVote cls cands items = .error e) : e = Err.parseError := by
+  unfold ordVote at h
+  cases hr : ordItems cls cands 0 items with
+  | error e' => rw [hr] at h; simp at h; subst h; exact ordItems_err cls cands _ _ e' hr
+  | ok co =>
+    rw [hr] at h; simp only [ok_bind] at h
+    split at h
+    · simp at h
+    · simp at h; exact h.symm
+
+theorem loadOrdered_err (cls : String → OItem) (cands : List Nat) (n : Nat) : ∀ (vs : List VLine) (i : Nat)
+    (acc : List (List Nat × Rat)) (e : Err), loadOrdered cls cands n vs i acc = .error e → StvErr e
+  | [], _, _, e, h => by simp [loadOrdered] at h; exact Or.inl h.symm
+  | .endLine :: _, i, acc, e, h => by
+      simp only [loadOrdered] at h
+      split at h
+      · simp at h; exact Or.inl h.symm
+      · simp at h
+  | .blank :: rest, i, acc, e, h => by simp only [loadOrdered] at h; exact loadOrdered_err cls cands n rest _ _ e h
+  | .items first more :: rest, i, acc, e, h => by
+      simp only [loadOrdered] at h
+      cases first with
+      | mult r =>
+        simp only at h
+        cases hl : ordVote cls cands more with
+        | error e' => rw [hl] at h; simp at h; subst h; exact Or.inl (ordVote_err cls cands _ _ hl)
+        | ok b => rw [hl] at h; simp only [ok_bind] at h; exact loadOrdered_err cls cands n rest _ _ e h
+      | multBad => simp at h; exact Or.inl h.symm
+      | word s =>
+        simp only at h
+        cases hl : ordVote cls cands (s :: more) with
+        | error e' => rw [hl] at h; simp at h; subst h; exact Or.inl (ordVote_err cls cands _ _ hl)
+        | ok b => rw [hl] at h; simp only [ok_bind] at h; exact loadOrdered_err cls cands n rest _ _ e h
+
+theorem loadStv_err (cls : String → OItem) (hs : List HLine) (vs : List VLine) (bl : List Blt.Line) (e : Err)
+    (h : loadStv cls hs vs bl = .error e) : StvErr e := by
   simp only [loadStv] at h
-  cases hh : loadHeader hs [] [] {} with
-  | error e' => rw [hh] at h; simp at h; subst h; exact loadHeader_err _ _ _ _ _ hh
+  cases hh : loadHeader hs [] [] {} [] with
+  | error e' => rw [hh] at h; simp at h; subst h; exact loadHeader_err _ _ _ _ _ _ hh
   | ok r =>
-    obtain ⟨cs, nk, sys, n?⟩ := r
+    obtain ⟨cs, nk, sys, n?, o⟩ := r
     rw [hh] at h
     simp only [ok_bind] at h
     cases n? with
     | some n =>
       simp only at h
-      cases hv : loadVotes nk n vs 0 [] with
-      | error e' => rw [hv] at h; simp at h; subst h; exact loadVotes_err _ _ _ _ _ _ hv
-      | ok bs => rw [hv] at h; simp at h
+      cases o with
+      | false =>
+        simp only [Bool.false_eq_true, if_false] at h
+        cases hv : loadVotes nk n vs 0 [] with
+        | error e' => rw [hv] at h; simp at h; subst h; exact loadVotes_err _ _ _ _ _ _ hv
+        | ok bs => rw [hv] at h; simp at h
+      | true =>
+        simp only [if_true] at h
+        cases hv : loadOrdered cls (nk.map (·.2)) n vs 0 [] with
+        | error e' => rw [hv] at h; simp at h; subst h; exact loadOrdered_err _ _ _ _ _ _ _ hv
+        | ok bs => rw [hv] at h; simp at h
     | none =>
       simp only at h
       cases hb : Blt.loadBlt bl with
@@ -531,7 +622,7 @@ theorem dumpSys_err : ∀ (sys : Sys) (e : Err), dumpSys sys = .error e → e = 
       cases hs : dumpSys s with
       | error e' => rw [hs] at h; simp at h; subst h; exact dumpSys_err s e' hs
       | ok r => rw [hs] at h; simp at h
-  | .tie m tb, e, h => by
+  | .tie m tb _, e, h => by
       simp only [dumpSys] at h
       cases hs : dumpSys m with
       | error e' => rw [hs] at h; simp at h; subst h; exact dumpSys_err m e' hs
@@ -541,7 +632,7 @@ theorem dumpSys_err : ∀ (sys : Sys) (e : Err), dumpSys sys = .error e → e = 
         cases ht : dumpTb tb with
         | error e' => rw [ht] at h; simp at h; subst h; exact dumpTb_err tb e' ht
         | ok t => rw [ht] at h; simp at h
-  | .tv a b c q m, e, h => by simp only [dumpSys] at h; exact dumpTv_err a b c q m e h
+  | .tv a b c q m _ _, e, h => by simp only [dumpSys] at h; exact dumpTv_err a b c q m e h
   | .other, e, h => by simp [dumpSys] at h
 
 /-- whatever the writer refuses, it refuses with NotSupportedInSTV -/
@@ -565,16 +656,16 @@ theorem dumpStv_err (sys : Sys) (arg : Option Nat) (namesOK : Bool) (d : Doc Wei
 def bltSummary (seats : Nat) : Summary :=
   { title := none, seats := some (seats : Int), quota := Quota.unknown, mandatory := false, random := none }
 
-theorem load_dump_blt (d : Blt.Doc Blt.Weight) (h : Blt.WFdoc d = true) (vs : List VLine) :
+theorem load_dump_blt (d : Blt.Doc Blt.Weight) (h : Blt.WFdoc d = true) (cls : String → OItem) (vs : List VLine) :
     ∃ hv, dumpStvBlt d = .ok hv ∧
-      loadStv hv.1 vs hv.2 = .ok ({ cands := d.cands.map (fun c => (c.1, c.2, "")),
-                                    ballots := d.ballots.map (fun b => (b.1, b.2.val)) }, d.cands, bltSummary d.nSeats) := by
+      loadStv cls hv.1 vs hv.2 = .ok ({ cands := d.cands.map (fun c => (c.1, c.2, "")),
+                                        ballots := d.ballots.map (fun b => (b.1, b.2.val)) }, d.cands, bltSummary d.nSeats) := by
   have h' : Blt.WFdoc { d with title := none } = true := by simpa [Blt.WFdoc] using h
   obtain ⟨ls, hd, hl⟩ := Blt.load_dump _ h'
   refine ⟨([HLine.other "method" (SVal.word "blt"), HLine.ballotsBlt], ls), ?_, ?_⟩
   · simp [dumpStvBlt, hd]
-  · have hh : loadHeader [HLine.other "method" (SVal.word "blt"), HLine.ballotsBlt] [] [] {}
-        = .ok ([], [], { title := none, seats := none, quota := Quota.unknown, mandatory := false, random := none }, none) := by
+  · have hh : loadHeader [HLine.other "method" (SVal.word "blt"), HLine.ballotsBlt] [] [] {} []
+        = .ok ([], [], { title := none, seats := none, quota := Quota.unknown, mandatory := false, random := none }, none, false) := by
       rfl
     simp only [loadStv, hh, ok_bind, hl]
     cases hc : d.cands with
@@ -597,42 +688,6 @@ theorem nickSet_ok : ∀ (nk : List (String × Nat)) (k : String) (v n : Nat), N
         · exact h _ List.mem_cons_self
         · exact nickSet_ok t k v n (fun q hq => h q (List.mem_cons_of_mem _ hq)) hv p hm
 
-theorem loadHeader_nk : ∀ (hs : List HLine) (cs : List (String × Bool)) (nk : List (String × Nat)) (sc : Comps)
-    (cs' : List (String × Bool)) (nk' : List (String × Nat)) (sys : Summary) (n? : Option Nat),
-    loadHeader hs cs nk sc = .ok (cs', nk', sys, n?) → NkOK nk cs.length → NkOK nk' cs'.length
-  | [], _, _, _, _, _, _, _, h, _ => by simp [loadHeader] at h
-  | .blank :: rest, cs, nk, sc, cs', nk', sys, n?, h, hk => by
-      simp only [loadHeader] at h; exact loadHeader_nk rest cs nk sc cs' nk' sys n? h hk
-  | .invalid :: _, _, _, _, _, _, _, _, h, _ => by simp [loadHeader] at h
-  | .cand w nick name :: rest, cs, nk, sc, cs', nk', sys, n?, h, hk => by
-      simp only [loadHeader] at h
-      refine loadHeader_nk rest _ _ sc cs' nk' sys n? h ?_
-      have hlen : (cs ++ [(name, w)]).length = cs.length + 1 := by simp
-      rw [hlen]
-      exact nickSet_ok nk nick cs.length (cs.length + 1) (fun p hp => Nat.lt_succ_of_lt (hk p hp)) (Nat.lt_succ_self _)
-  | .candBad :: _, _, _, _, _, _, _, _, h, _ => by simp [loadHeader] at h
-  | .ballotsN n :: _, cs, nk, sc, cs', nk', sys, n?, h, hk => by
-      simp only [loadHeader] at h
-      cases hc : createSystem sc with
-      | error e' => rw [hc] at h; simp at h
-      | ok s0 => rw [hc] at h; simp at h; obtain ⟨rfl, rfl, _, _⟩ := h; exact hk
-  | .ballotsBlt :: _, cs, nk, sc, cs', nk', sys, n?, h, hk => by
-      simp only [loadHeader] at h
-      cases hc : createSystem sc with
-      | error e' => rw [hc] at h; simp at h
-      | ok s0 => rw [hc] at h; simp at h; obtain ⟨rfl, rfl, _, _⟩ := h; exact hk
-  | .ballotsBad :: _, _, _, sc, _, _, _, _, h, _ => by
-      simp only [loadHeader] at h
-      cases hc : createSystem sc with
-      | error e' => rw [hc] at h; simp at h
-      | ok s0 => rw [hc] at h; simp at h
-  | .order _ :: _, _, _, _, _, _, _, _, h, _ => by simp [loadHeader] at h
-  | .other k v :: rest, cs, nk, sc, cs', nk', sys, n?, h, hk => by
-      simp only [loadHeader] at h
-      cases hc : compsAdd sc k v with
-      | error e' => rw [hc] at h; simp at h
-      | ok c1 => rw [hc] at h; simp only [ok_bind] at h; exact loadHeader_nk rest cs nk c1 cs' nk' sys n? h hk
-
 theorem lookup_mem : ∀ (nk : List (String × Nat)) (s : String) (i : Nat), nk.lookup s = some i → (s, i) ∈ nk
   | [], _, _, h => by simp [List.lookup] at h
   | (k, v) :: t, s, i, h => by
@@ -642,6 +697,80 @@ theorem lookup_mem : ∀ (nk : List (String × Nat)) (s : String) (i : Nat), nk.
         have : s = k := by simpa using heq
         cases h; subst this; exact List.mem_cons_self
       · exact List.mem_cons_of_mem _ (lookup_mem t s i h)
+
+theorem reorderNicks_ok (nk : List (String × Nat)) (n : Nat) (hk : NkOK nk n) : ∀ (l : List String)
+    (acc r : List (String × Nat)), reorderNicks nk l acc = .ok r → NkOK acc n → NkOK r n
+  | [], acc, r, h, ha => by simp [reorderNicks] at h; subst h; exact ha
+  | s :: t, acc, r, h, ha => by
+      simp only [reorderNicks] at h
+      split at h
+      · rename_i i hi
+        exact reorderNicks_ok nk n hk t _ r h (nickSet_ok acc s i n ha (hk _ (lookup_mem nk s i hi)))
+      · simp at h
+
+theorem applyOrder_ok (nk : List (String × Nat)) (n : Nat) (hk : NkOK nk n) (ord : List String)
+    (r : List (String × Nat) × Bool) (h : applyOrder nk ord = .ok r) : NkOK r.1 n := by
+  unfold applyOrder at h
+  split at h
+  · simp at h; subst h; exact hk
+  · cases hr : reorderNicks nk ord [] with
+    | error e' => rw [hr] at h; simp at h
+    | ok r' =>
+      rw [hr] at h; simp at h; subst h
+      exact reorderNicks_ok nk n hk ord [] r' hr (by intro p hp; simp at hp)
+
+theorem loadHeader_nk : ∀ (hs : List HLine) (cs : List (String × Bool)) (nk : List (String × Nat)) (sc : Comps)
+    (ord : List String) (cs' : List (String × Bool)) (nk' : List (String × Nat)) (sys : Summary) (n? : Option Nat) (o : Bool),
+    loadHeader hs cs nk sc ord = .ok (cs', nk', sys, n?, o) → NkOK nk cs.length → NkOK nk' cs'.length
+  | [], _, _, _, _, _, _, _, _, _, h, _ => by simp [loadHeader] at h
+  | .blank :: rest, cs, nk, sc, ord, cs', nk', sys, n?, o, h, hk => by
+      simp only [loadHeader] at h; exact loadHeader_nk rest cs nk sc ord cs' nk' sys n? o h hk
+  | .invalid :: _, _, _, _, _, _, _, _, _, _, h, _ => by simp [loadHeader] at h
+  | .cand w nick name :: rest, cs, nk, sc, ord, cs', nk', sys, n?, o, h, hk => by
+      simp only [loadHeader] at h
+      refine loadHeader_nk rest _ _ sc ord cs' nk' sys n? o h ?_
+      have hlen : (cs ++ [(name, w)]).length = cs.length + 1 := by simp
+      rw [hlen]
+      exact nickSet_ok nk nick cs.length (cs.length + 1) (fun p hp => Nat.lt_succ_of_lt (hk p hp)) (Nat.lt_succ_self _)
+  | .candBad :: _, _, _, _, _, _, _, _, _, _, h, _ => by simp [loadHeader] at h
+  | .ballotsN n :: _, cs, nk, sc, ord, cs', nk', sys, n?, o, h, hk => by
+      simp only [loadHeader] at h
+      cases ho : applyOrder nk ord with
+      | error e' => rw [ho] at h; simp at h
+      | ok r =>
+        rw [ho] at h; simp only [ok_bind] at h
+        cases hc : createSystem sc with
+        | error e' => rw [hc] at h; simp at h
+        | ok s0 =>
+          rw [hc] at h; simp at h; obtain ⟨rfl, rfl, _, _, _⟩ := h
+          exact applyOrder_ok nk _ hk ord r ho
+  | .ballotsBlt :: _, cs, nk, sc, ord, cs', nk', sys, n?, o, h, hk => by
+      simp only [loadHeader] at h
+      cases ho : applyOrder nk ord with
+      | error e' => rw [ho] at h; simp at h
+      | ok r =>
+        rw [ho] at h; simp only [ok_bind] at h
+        cases hc : createSystem sc with
+        | error e' => rw [hc] at h; simp at h
+        | ok s0 =>
+          rw [hc] at h; simp at h; obtain ⟨rfl, rfl, _, _, _⟩ := h
+          exact applyOrder_ok nk _ hk ord r ho
+  | .ballotsBad :: _, _, nk, sc, ord, _, _, _, _, _, h, _ => by
+      simp only [loadHeader] at h
+      cases ho : applyOrder nk ord with
+      | error e' => rw [ho] at h; simp at h
+      | ok r =>
+        rw [ho] at h; simp only [ok_bind] at h
+        cases hc : createSystem sc with
+        | error e' => rw [hc] at h; simp at h
+        | ok s0 => rw [hc] at h; simp at h
+  | .order l :: rest, cs, nk, sc, _, cs', nk', sys, n?, o, h, hk => by
+      simp only [loadHeader] at h; exact loadHeader_nk rest cs nk sc l cs' nk' sys n? o h hk
+  | .other k v :: rest, cs, nk, sc, ord, cs', nk', sys, n?, o, h, hk => by
+      simp only [loadHeader] at h
+      cases hc : compsAdd sc k v with
+      | error e' => rw [hc] at h; simp at h
+      | ok c1 => rw [hc] at h; simp only [ok_bind] at h; exact loadHeader_nk rest cs nk c1 ord cs' nk' sys n? o h hk
 
 theorem lookupNicks_valid (nk : List (String × Nat)) (n : Nat) (hk : NkOK nk n) : ∀ (l : List String) (idx : List Nat),
     lookupNicks nk l = .ok idx → ∀ i ∈ idx, i < n
@@ -704,24 +833,124 @@ theorem loadVotes_valid (nk : List (String × Nat)) (m : Nat) (hk : NkOK nk m) (
           rw [hl] at h; simp only [ok_bind] at h
           exact loadVotes_valid nk m hk n rest _ _ bs h (addVote_ok acc b 1 m ha (lookupNicks_valid nk m hk _ _ hl))
 
-theorem loadStv_valid (hs : List HLine) (vs : List VLine) (bl : List Blt.Line) (r : Doc Rat × List (String × Bool) × Summary)
-    (h : loadStv hs vs bl = .ok r) : ∀ b ∈ r.1.ballots, ∀ i ∈ b.1, i < r.2.1.length := by
+theorem ordItems_mem (cls : String → OItem) (cands : List Nat) : ∀ (l : List String) (i : Nat) (co : List (Nat × Nat)),
+    ordItems cls cands i l = .ok co → ∀ p ∈ co, p.1 ∈ cands
+  | [], _, co, h => by simp [ordItems] at h; subst h; simp
+  | s :: t, i, co, h => by
+      simp only [ordItems] at h
+      split at h
+      · rename_i r c _ hc
+        cases hr : ordItems cls cands (i + 1) t with
+        | error e' => rw [hr] at h; simp at h
+        | ok rest =>
+          rw [hr] at h; simp at h; subst h
+          intro p hp
+          rcases List.mem_cons.1 hp with rfl | hm
+          · exact List.mem_of_getElem? hc
+          · exact ordItems_mem cls cands t _ rest hr p hm
+      · exact ordItems_mem cls cands t _ co h
+      · simp at h
+
+theorem mem_insertRank (x : Nat × Nat) : ∀ (l : List (Nat × Nat)) (p : Nat × Nat), p ∈ insertRank x l → p = x ∨ p ∈ l
+  | [], p, h => by simp [insertRank] at h; exact Or.inl h
+  | y :: ys, p, h => by
+      simp only [insertRank] at h
+      split at h
+      · rcases List.mem_cons.1 h with rfl | hm
+        · exact Or.inl rfl
+        · exact Or.inr hm
+      · rcases List.mem_cons.1 h with rfl | hm
+        · exact Or.inr List.mem_cons_self
+        · rcases mem_insertRank x ys p hm with rfl | h2
+          · exact Or.inl rfl
+          · exact Or.inr (List.mem_cons_of_mem _ h2)
+
+theorem mem_sortRank : ∀ (l : List (Nat × Nat)) (p : Nat × Nat), p ∈ sortRank l → p ∈ l
+  | [], p, h => by simp [sortRank] at h
+  | x :: xs, p, h => by
+      simp only [sortRank] at h
+      rcases mem_insertRank x _ p h with rfl | h2
+      · exact List.mem_cons_self
+      · exact List.mem_cons_of_mem _ (mem_sortRank xs p h2)
+
+theorem ordVote_valid (cls : String → OItem) (cands : List Nat) (items : List String) (b : List Nat)
+    (h : ordVote cls cands items = .ok b) : ∀ i ∈ b, i ∈ cands := by
+  unfold ordVote at h
+  cases hr : ordItems cls cands 0 items with
+  | error e' => rw [hr] at h; simp at h
+  | ok co =>
+    rw [hr] at h; simp only [ok_bind] at h
+    split at h
+    · simp at h; subst h
+      intro i hi
+      obtain ⟨p, hp, rfl⟩ := List.mem_map.1 hi
+      exact ordItems_mem cls cands items 0 co hr p (mem_sortRank co p hp)
+    · simp at h
+
+theorem loadOrdered_valid (cls : String → OItem) (cands : List Nat) (m : Nat) (hc : ∀ c ∈ cands, c < m) (n : Nat) :
+    ∀ (vs : List VLine) (i : Nat) (acc bs : List (List Nat × Rat)), loadOrdered cls cands n vs i acc = .ok bs →
+    BallotsOK acc m → BallotsOK bs m
+  | [], _, _, _, h, _ => by simp [loadOrdered] at h
+  | .endLine :: _, i, acc, bs, h, ha => by
+      simp only [loadOrdered] at h
+      split at h
+      · simp at h
+      · simp at h; subst h; exact ha
+  | .blank :: rest, i, acc, bs, h, ha => by
+      simp only [loadOrdered] at h; exact loadOrdered_valid cls cands m hc n rest _ _ bs h ha
+  | .items first more :: rest, i, acc, bs, h, ha => by
+      simp only [loadOrdered] at h
+      cases first with
+      | mult r =>
+        simp only at h
+        cases hl : ordVote cls cands more with
+        | error e' => rw [hl] at h; simp at h
+        | ok b =>
+          rw [hl] at h; simp only [ok_bind] at h
+          exact loadOrdered_valid cls cands m hc n rest _ _ bs h
+            (addVote_ok acc b r m ha (fun i hi => hc i (ordVote_valid cls cands _ b hl i hi)))
+      | multBad => simp at h
+      | word s =>
+        simp only at h
+        cases hl : ordVote cls cands (s :: more) with
+        | error e' => rw [hl] at h; simp at h
+        | ok b =>
+          rw [hl] at h; simp only [ok_bind] at h
+          exact loadOrdered_valid cls cands m hc n rest _ _ bs h
+            (addVote_ok acc b 1 m ha (fun i hi => hc i (ordVote_valid cls cands _ b hl i hi)))
+
+theorem loadStv_valid (cls : String → OItem) (hs : List HLine) (vs : List VLine) (bl : List Blt.Line)
+    (r : Doc Rat × List (String × Bool) × Summary)
+    (h : loadStv cls hs vs bl = .ok r) : ∀ b ∈ r.1.ballots, ∀ i ∈ b.1, i < r.2.1.length := by
   simp only [loadStv] at h
-  cases hh : loadHeader hs [] [] {} with
+  cases hh : loadHeader hs [] [] {} [] with
   | error e' => rw [hh] at h; simp at h
   | ok r0 =>
-    obtain ⟨cs, nk, sys, n?⟩ := r0
+    obtain ⟨cs, nk, sys, n?, o⟩ := r0
     rw [hh] at h
     simp only [ok_bind] at h
-    have hk : NkOK nk cs.length := loadHeader_nk hs [] [] {} cs nk sys n? hh (by intro p hp; simp at hp)
+    have hk : NkOK nk cs.length := loadHeader_nk hs [] [] {} [] cs nk sys n? o hh (by intro p hp; simp at hp)
     cases n? with
     | some n =>
       simp only at h
-      cases hv : loadVotes nk n vs 0 [] with
-      | error e' => rw [hv] at h; simp at h
-      | ok bs =>
-        rw [hv] at h; simp at h; subst h
-        exact loadVotes_valid nk cs.length hk n vs 0 [] bs hv (by intro b hb; simp at hb)
+      cases o with
+      | false =>
+        simp only [Bool.false_eq_true, if_false] at h
+        cases hv : loadVotes nk n vs 0 [] with
+        | error e' => rw [hv] at h; simp at h
+        | ok bs =>
+          rw [hv] at h; simp at h; subst h
+          exact loadVotes_valid nk cs.length hk n vs 0 [] bs hv (by intro b hb; simp at hb)
+      | true =>
+        simp only [if_true] at h
+        cases hv : loadOrdered cls (nk.map (·.2)) n vs 0 [] with
+        | error e' => rw [hv] at h; simp at h
+        | ok bs =>
+          rw [hv] at h; simp at h; subst h
+          refine loadOrdered_valid cls _ cs.length ?_ n vs 0 [] bs hv (by intro b hb; simp at hb)
+          intro c hc
+          obtain ⟨p, hp, rfl⟩ := List.mem_map.1 hc
+          exact hk p hp
     | none =>
       simp only at h
       cases hb : Blt.loadBlt bl with
